@@ -27,7 +27,7 @@ def gen_sweep(tier, rng):
     for day in days:
         for minute in range(1440):
             for r in ROUNDINGS:
-                if tier == "quick":
+                if tier == "quick" or day != DAYS[1]:
                     combos = [(rng.choice(["start", "stop", "switch"]), rng.choice(["d", "t", "y", "m", "x"]), rng.choice(LAYOUTS)) for _ in range(2)]
                     if minute >= 1410 or minute < 5:     # the critical end of the day: everything
                         combos = [(c, s, l) for c in ("start", "stop") for s in ("d", "y", "m") for l in ("today", "yday", "both", "old")]
@@ -93,7 +93,7 @@ def suites():
         Suite("clock-sweep", gen_sweep, oracle=oracle_sweep, decisive=False,
               nontrivial=lambda r, o: "ok:" in o,
               exhaustive=lambda t: t != "quick",
-              rule="start / stop / switch without --time at every minute of the day x roundings {none,5,10,12,15,20,30,60} (flag or config) x date selection {default,--today,--yesterday,--tomorrow,--date} x record layouts (open range today / yesterday / both / none / tomorrow / older / empty file); quick: one day, 3 random combinations per (minute, rounding) and the full product for 23:00-0:10; thorough: full product on 7 days (ordinary, month end, year end, leap day)"),
+              rule="start / stop / switch without --time at every minute of the day x roundings {none,5,10,12,15,20,30,60} (flag or config) x date selection {default,--today,--yesterday,--tomorrow,--date} x record layouts (open range today / yesterday / both / none / tomorrow / older / empty file); quick: one day, 3 random combinations per (minute, rounding) and the full product for 23:00-0:10; thorough: the full product on the leap day 2020-02-29 and the sampled product on 6 further days (ordinary, month ends, year end/start)"),
         Suite("now-sweep", gen_now, oracle=oracle_now,
               rule="`klog total --now` at every minute for open ranges dated today / yesterday / both / older / future / shifted start",
               nontrivial=lambda r, o: o.startswith("ok")),
